@@ -669,6 +669,13 @@ func (c *hdClient) take() ([][]byte, bool) {
 	return m, c.closed
 }
 
+// nmsgs: number of messages read from the connection and not yet taken
+func (c *hdClient) nmsgs() int {
+	c.mu.Lock()
+	defer c.mu.Unlock()
+	return len(c.msgs)
+}
+
 func (c *hdClient) hasId(id string) bool {
 	needle := []byte(`"id":"` + id + `"`)
 	c.mu.Lock()
